@@ -1519,3 +1519,119 @@ package sarama
 //@   loop 0: invariant forall p int32 :: $visited[p] && !(partitionSet == writablePartitions && client.metadata[topic][p].Err == ErrLeaderNotAvailable) ==> exists k :: 0 <= k && k < len(ret) && ret[k] == p
 //@   loop 0: invariant forall p int32 :: $visited[p] ==> haskey(client.metadata[topic], p)
 //@   nosafety
+
+//@ func (b *Broker) ID() pure
+//@ func (b *Broker) Addr() pure
+
+// closing happens on another goroutine and touches only the broker's own connection state (A-own)
+//@ func safeAsyncClose(b) trusted
+//@   modifies nothing
+
+// updateBroker reconciles the known brokers with the response: every listed broker id is known afterwards under the
+// address the response gave, and ids the response does not list are dropped.
+//@ func (client *client) updateBroker(brokers) props C15
+//@   requires lockheld(client.lock)
+//@   requires client.brokers != nil
+//@   requires forall k :: 0 <= k && k < len(brokers) ==> brokers[k] != nil
+//@   ensures[listed_known] forall k :: 0 <= k && k < len(brokers) ==> client.brokers[brokers[k].id] != nil
+//@   ensures[address_current] forall id int32 :: haskey(client.brokers, id) ==> exists k :: 0 <= k && k < len(brokers) && brokers[k].id == id && client.brokers[id] != nil && client.brokers[id].addr == brokers[k].addr
+//@   ensures[absent_dropped] forall id int32 :: haskey(client.brokers, id) ==> exists k :: 0 <= k && k < len(brokers) && brokers[k].id == id
+//@   modifies map:client.brokers
+//@   loop 0: invariant forall k :: 0 <= k && k < $i ==> client.brokers[brokers[k].id] != nil && haskey(currentBroker, brokers[k].id)
+//@   loop 0: invariant forall id int32 :: haskey(currentBroker, id) ==> exists k :: 0 <= k && k < $i && brokers[k].id == id && client.brokers[id] != nil && client.brokers[id].addr == brokers[k].addr
+//@   loop 1: invariant forall id int32 :: haskey(client.brokers, id) && !haskey(currentBroker, id) ==> !$visited[id]
+//@   loop 1: invariant forall k :: 0 <= k && k < len(brokers) ==> client.brokers[brokers[k].id] != nil
+//@   loop 1: invariant forall id int32 :: haskey(currentBroker, id) ==> exists k :: 0 <= k && k < len(brokers) && brokers[k].id == id && client.brokers[id] != nil && client.brokers[id].addr == brokers[k].addr
+//@   loop 1: invariant forall id int32 :: haskey(currentBroker, id) ==> exists k :: 0 <= k && k < len(brokers) && brokers[k].id == id
+
+// Monitor invariant of client.lock: assumed when the lock is acquired, proved when the write lock is released.
+// While the client is open all caches exist; every cached topic has a partition map keyed by partition id; and the
+// derived id lists are exactly the ids of that map (writable: those whose leader is available), sorted.
+//@ lockinv[maps_live @C15] client.lock (c): c.brokers != nil ==> c.metadata != nil && c.metadataTopics != nil && c.cachedPartitionsResults != nil
+//@ lockinv[keyed @C15] client.lock (c): c.metadata != nil ==> forall t string, p int32 :: haskey(c.metadata, t) ==> c.metadata[t] != nil && allocated(c.metadata[t]) && (haskey(c.metadata[t], p) ==> c.metadata[t][p] != nil && c.metadata[t][p].ID == p)
+
+//@ lockinv[cached_has_metadata @C15] client.lock (c): c.metadata != nil && c.cachedPartitionsResults != nil ==> forall t string :: haskey(c.cachedPartitionsResults, t) ==> haskey(c.metadata, t)
+//@ lockinv[all_sorted @C15 +keyed +cached_has_metadata] client.lock (c): c.cachedPartitionsResults != nil ==> forall t string, a int, b int :: haskey(c.cachedPartitionsResults, t) && 0 <= a && a < b && b < len(c.cachedPartitionsResults[t][allPartitions]) ==> c.cachedPartitionsResults[t][allPartitions][a] <= c.cachedPartitionsResults[t][allPartitions][b]
+//@ lockinv[all_only_known @C15 +keyed +cached_has_metadata] client.lock (c): c.metadata != nil && c.cachedPartitionsResults != nil ==> forall t string, k int :: haskey(c.cachedPartitionsResults, t) && 0 <= k && k < len(c.cachedPartitionsResults[t][allPartitions]) ==> haskey(c.metadata[t], c.cachedPartitionsResults[t][allPartitions][k])
+//@ lockinv[all_complete @C15 +keyed +cached_has_metadata] client.lock (c): c.metadata != nil && c.cachedPartitionsResults != nil ==> forall t string, p int32 :: haskey(c.cachedPartitionsResults, t) && haskey(c.metadata[t], p) ==> exists k :: 0 <= k && k < len(c.cachedPartitionsResults[t][allPartitions]) && c.cachedPartitionsResults[t][allPartitions][k] == p
+//@ lockinv[writable_sorted @C15 +keyed +cached_has_metadata] client.lock (c): c.cachedPartitionsResults != nil ==> forall t string, a int, b int :: haskey(c.cachedPartitionsResults, t) && 0 <= a && a < b && b < len(c.cachedPartitionsResults[t][writablePartitions]) ==> c.cachedPartitionsResults[t][writablePartitions][a] <= c.cachedPartitionsResults[t][writablePartitions][b]
+//@ lockinv[writable_only_available @C15 +keyed +cached_has_metadata] client.lock (c): c.metadata != nil && c.cachedPartitionsResults != nil ==> forall t string, k int :: haskey(c.cachedPartitionsResults, t) && 0 <= k && k < len(c.cachedPartitionsResults[t][writablePartitions]) ==> haskey(c.metadata[t], c.cachedPartitionsResults[t][writablePartitions][k]) && c.metadata[t][c.cachedPartitionsResults[t][writablePartitions][k]].Err != ErrLeaderNotAvailable
+//@ lockinv[writable_complete @C15 +keyed +cached_has_metadata] client.lock (c): c.metadata != nil && c.cachedPartitionsResults != nil ==> forall t string, p int32 :: haskey(c.cachedPartitionsResults, t) && haskey(c.metadata[t], p) && c.metadata[t][p].Err != ErrLeaderNotAvailable ==> exists k :: 0 <= k && k < len(c.cachedPartitionsResults[t][writablePartitions]) && c.cachedPartitionsResults[t][writablePartitions][k] == p
+
+//@ func (client *client) Closed() props C15
+//@   returns r
+//@   ensures r == (client.brokers == nil)
+
+// BEGIN generated: client.updateMetadata (tools/gen_c15_contract.py in the verification directory)
+// A-close: the client is not closed between the Closed() test and the critical section (Close racing with a refresh
+// would make updateBroker write to a nil map; outside the property).
+// "last occurrence": a response may name a topic twice; the later entry wins, so the per-topic clauses speak about
+// entries that no later entry of the same name follows.
+//@ func (client *client) updateMetadata(data, allKnownMetaData) props C15
+//@   returns retry, err
+//@   requires data != nil
+//@   requires forall k :: 0 <= k && k < len(data.Brokers) ==> data.Brokers[k] != nil
+//@   requires forall k :: 0 <= k && k < len(data.Topics) ==> data.Topics[k] != nil
+//@   requires forall k, j :: 0 <= k && k < len(data.Topics) && 0 <= j && j < len(data.Topics[k].Partitions) ==> data.Topics[k].Partitions[j] != nil
+//@   assume_acq client.brokers != nil
+//@   ensures[controller] acquired() ==> client.controllerID == data.ControllerID
+//@   ensures[topics_tracked] acquired() ==> (forall k :: 0 <= k && k < len(data.Topics) ==> haskey(client.metadataTopics, data.Topics[k].Name))
+//@   ensures[error_topics_forgotten] acquired() ==> (forall k :: 0 <= k && k < len(data.Topics) && (forall j2 :: k < j2 && j2 < len(data.Topics) ==> data.Topics[j2].Name != data.Topics[k].Name) && !(data.Topics[k].Err == ErrNoError || data.Topics[k].Err == ErrLeaderNotAvailable) ==> !haskey(client.metadata, data.Topics[k].Name) && !haskey(client.cachedPartitionsResults, data.Topics[k].Name))
+//@   ensures[stored_topics_present] acquired() ==> (forall k :: 0 <= k && k < len(data.Topics) && (forall j2 :: k < j2 && j2 < len(data.Topics) ==> data.Topics[j2].Name != data.Topics[k].Name) && (data.Topics[k].Err == ErrNoError || data.Topics[k].Err == ErrLeaderNotAvailable) ==> haskey(client.metadata, data.Topics[k].Name) && haskey(client.cachedPartitionsResults, data.Topics[k].Name))
+//@   ensures[stored_partitions_listed] acquired() ==> (forall k, j :: 0 <= k && k < len(data.Topics) && (forall j2 :: k < j2 && j2 < len(data.Topics) ==> data.Topics[j2].Name != data.Topics[k].Name) && (data.Topics[k].Err == ErrNoError || data.Topics[k].Err == ErrLeaderNotAvailable) && 0 <= j && j < len(data.Topics[k].Partitions) ==> haskey(client.metadata[data.Topics[k].Name], data.Topics[k].Partitions[j].ID))
+//@   ensures[stored_partitions_only] acquired() ==> (forall k int, p int32 :: 0 <= k && k < len(data.Topics) && (forall j2 :: k < j2 && j2 < len(data.Topics) ==> data.Topics[j2].Name != data.Topics[k].Name) && (data.Topics[k].Err == ErrNoError || data.Topics[k].Err == ErrLeaderNotAvailable) && haskey(client.metadata[data.Topics[k].Name], p) ==> exists j :: 0 <= j && j < len(data.Topics[k].Partitions) && data.Topics[k].Partitions[j].ID == p && client.metadata[data.Topics[k].Name][p] == data.Topics[k].Partitions[j])
+//@   ensures[full_refresh_forgets_unlisted] acquired() ==> (allKnownMetaData ==> forall t string :: haskey(client.metadata, t) ==> exists k :: 0 <= k && k < len(data.Topics) && data.Topics[k].Name == t)
+//@   ensures[partial_refresh_keeps_unlisted] acquired() ==> (!allKnownMetaData ==> forall t string :: (forall k :: 0 <= k && k < len(data.Topics) ==> data.Topics[k].Name != t) ==> haskey(client.metadata, t) == acq(haskey(client.metadata, t)) && client.metadata[t] == acq(client.metadata[t]) && haskey(client.cachedPartitionsResults, t) == acq(haskey(client.cachedPartitionsResults, t)))
+//@   ensures[err_is_a_topic_error] acquired() ==> (err != nil ==> exists k :: 0 <= k && k < len(data.Topics) && !(data.Topics[k].Err == ErrNoError || data.Topics[k].Err == ErrLeaderNotAvailable) && err == data.Topics[k].Err)
+//@   ensures[err_nil_means_no_topic_error] acquired() ==> (err == nil ==> forall k :: 0 <= k && k < len(data.Topics) ==> (data.Topics[k].Err == ErrNoError || data.Topics[k].Err == ErrLeaderNotAvailable))
+//@   ensures[retry_has_cause] acquired() ==> (retry ==> exists k :: 0 <= k && k < len(data.Topics) && (data.Topics[k].Err == ErrUnknownTopicOrPartition || data.Topics[k].Err == ErrLeaderNotAvailable || (data.Topics[k].Err == ErrNoError && exists j :: 0 <= j && j < len(data.Topics[k].Partitions) && data.Topics[k].Partitions[j].Err == ErrLeaderNotAvailable)))
+//@   ensures[retry_on_topic_class] acquired() ==> (forall k :: 0 <= k && k < len(data.Topics) && (data.Topics[k].Err == ErrUnknownTopicOrPartition || data.Topics[k].Err == ErrLeaderNotAvailable) ==> retry)
+//@   ensures[retry_on_leaderless_partition] acquired() ==> (forall k, j :: 0 <= k && k < len(data.Topics) && data.Topics[k].Err == ErrNoError && 0 <= j && j < len(data.Topics[k].Partitions) && data.Topics[k].Partitions[j].Err == ErrLeaderNotAvailable ==> retry)
+//@   loop 0: invariant client.metadata != nil && client.metadataTopics != nil && client.cachedPartitionsResults != nil
+//@   loop 0: invariant[keyed] forall t string, p int32 :: haskey(client.metadata, t) ==> client.metadata[t] != nil && allocated(client.metadata[t]) && (haskey(client.metadata[t], p) ==> client.metadata[t][p] != nil && client.metadata[t][p].ID == p)
+//@   loop 0: invariant[topics_tracked] forall k :: 0 <= k && k < $i ==> haskey(client.metadataTopics, data.Topics[k].Name)
+//@   loop 0: invariant[error_topics_forgotten] forall k :: 0 <= k && k < $i && (forall j2 :: k < j2 && j2 < $i ==> data.Topics[j2].Name != data.Topics[k].Name) && !(data.Topics[k].Err == ErrNoError || data.Topics[k].Err == ErrLeaderNotAvailable) ==> !haskey(client.metadata, data.Topics[k].Name) && !haskey(client.cachedPartitionsResults, data.Topics[k].Name)
+//@   loop 0: invariant[stored_topics_present +cur_topic] forall k :: 0 <= k && k < $i && (forall j2 :: k < j2 && j2 < $i ==> data.Topics[j2].Name != data.Topics[k].Name) && (data.Topics[k].Err == ErrNoError || data.Topics[k].Err == ErrLeaderNotAvailable) ==> haskey(client.metadata, data.Topics[k].Name) && haskey(client.cachedPartitionsResults, data.Topics[k].Name)
+//@   loop 0: invariant[stored_partitions_listed +cur_listed +cur_topic +keyed] forall k, j :: 0 <= k && k < $i && (forall j2 :: k < j2 && j2 < $i ==> data.Topics[j2].Name != data.Topics[k].Name) && (data.Topics[k].Err == ErrNoError || data.Topics[k].Err == ErrLeaderNotAvailable) && 0 <= j && j < len(data.Topics[k].Partitions) ==> haskey(client.metadata[data.Topics[k].Name], data.Topics[k].Partitions[j].ID)
+//@   loop 0: invariant[stored_partitions_only +cur_only +cur_topic +keyed] forall k int, p int32 :: 0 <= k && k < $i && (forall j2 :: k < j2 && j2 < $i ==> data.Topics[j2].Name != data.Topics[k].Name) && (data.Topics[k].Err == ErrNoError || data.Topics[k].Err == ErrLeaderNotAvailable) && haskey(client.metadata[data.Topics[k].Name], p) ==> exists j :: 0 <= j && j < len(data.Topics[k].Partitions) && data.Topics[k].Partitions[j].ID == p && client.metadata[data.Topics[k].Name][p] == data.Topics[k].Partitions[j]
+//@   loop 0: invariant[full_refresh_forgets_unlisted +cur_topic] allKnownMetaData ==> forall t string :: haskey(client.metadata, t) ==> exists k :: 0 <= k && k < $i && data.Topics[k].Name == t
+//@   loop 0: invariant[partial_refresh_keeps_unlisted +cur_topic] !allKnownMetaData ==> forall t string :: (forall k :: 0 <= k && k < $i ==> data.Topics[k].Name != t) ==> haskey(client.metadata, t) == acq(haskey(client.metadata, t)) && client.metadata[t] == acq(client.metadata[t]) && haskey(client.cachedPartitionsResults, t) == acq(haskey(client.cachedPartitionsResults, t))
+//@   loop 0: invariant[err_is_a_topic_error] err != nil ==> exists k :: 0 <= k && k < $i && !(data.Topics[k].Err == ErrNoError || data.Topics[k].Err == ErrLeaderNotAvailable) && err == data.Topics[k].Err
+//@   loop 0: invariant[err_nil_means_no_topic_error +cur_topic] err == nil ==> forall k :: 0 <= k && k < $i ==> (data.Topics[k].Err == ErrNoError || data.Topics[k].Err == ErrLeaderNotAvailable)
+//@   loop 0: invariant[retry_has_cause +retry_cause_cur +cur_topic] retry ==> exists k :: 0 <= k && k < $i && (data.Topics[k].Err == ErrUnknownTopicOrPartition || data.Topics[k].Err == ErrLeaderNotAvailable || (data.Topics[k].Err == ErrNoError && exists j :: 0 <= j && j < len(data.Topics[k].Partitions) && data.Topics[k].Partitions[j].Err == ErrLeaderNotAvailable))
+//@   loop 0: invariant[retry_on_topic_class +cur_topic] forall k :: 0 <= k && k < $i && (data.Topics[k].Err == ErrUnknownTopicOrPartition || data.Topics[k].Err == ErrLeaderNotAvailable) ==> retry
+//@   loop 0: invariant[retry_on_leaderless_partition +cur_retry +cur_topic] forall k, j :: 0 <= k && k < $i && data.Topics[k].Err == ErrNoError && 0 <= j && j < len(data.Topics[k].Partitions) && data.Topics[k].Partitions[j].Err == ErrLeaderNotAvailable ==> retry
+//@   loop 0: invariant lockinv(client.lock, cached_has_metadata)
+//@   loop 0: invariant lockinv(client.lock, all_sorted)
+//@   loop 0: invariant lockinv(client.lock, all_only_known)
+//@   loop 0: invariant lockinv(client.lock, all_complete)
+//@   loop 0: invariant lockinv(client.lock, writable_sorted)
+//@   loop 0: invariant lockinv(client.lock, writable_only_available)
+//@   loop 0: invariant lockinv(client.lock, writable_complete)
+//@   loop 1: invariant client.metadata != nil && client.metadata[topic.Name] != nil && haskey(client.metadata, topic.Name)
+//@   loop 1: invariant !haskey(client.cachedPartitionsResults, topic.Name)
+//@   loop 1: invariant[keyed] forall t string, p int32 :: haskey(client.metadata, t) ==> client.metadata[t] != nil && allocated(client.metadata[t]) && (haskey(client.metadata[t], p) ==> client.metadata[t][p] != nil && client.metadata[t][p].ID == p)
+//@   loop 1: invariant[cur_topic] 0 <= $i0 && $i0 < len(data.Topics) && topic == data.Topics[$i0] && (topic.Err == ErrNoError || topic.Err == ErrLeaderNotAvailable) && haskey(client.metadataTopics, topic.Name) && (topic.Err == ErrLeaderNotAvailable ==> retry)
+//@   loop 1: invariant[cur_listed] forall j :: 0 <= j && j < $i ==> haskey(client.metadata[topic.Name], topic.Partitions[j].ID)
+//@   loop 1: invariant[cur_only] forall p int32 :: haskey(client.metadata[topic.Name], p) ==> exists j :: 0 <= j && j < $i && topic.Partitions[j].ID == p && client.metadata[topic.Name][p] == topic.Partitions[j]
+//@   loop 1: invariant[cur_retry] forall j :: 0 <= j && j < $i && topic.Partitions[j].Err == ErrLeaderNotAvailable ==> retry
+//@   loop 1: invariant[retry_cause_cur] retry ==> (exists k :: 0 <= k && k < $i0 && (data.Topics[k].Err == ErrUnknownTopicOrPartition || data.Topics[k].Err == ErrLeaderNotAvailable || (data.Topics[k].Err == ErrNoError && exists j :: 0 <= j && j < len(data.Topics[k].Partitions) && data.Topics[k].Partitions[j].Err == ErrLeaderNotAvailable))) || topic.Err == ErrLeaderNotAvailable || exists j :: 0 <= j && j < $i && topic.Partitions[j].Err == ErrLeaderNotAvailable
+//@   loop 1: invariant[topics_tracked +cur_topic +keyed] forall k :: 0 <= k && k < $i0 ==> haskey(client.metadataTopics, data.Topics[k].Name)
+//@   loop 1: invariant[error_topics_forgotten +cur_topic +keyed] forall k :: 0 <= k && k < $i0 && (forall j2 :: k < j2 && j2 < $i0 + 1 ==> data.Topics[j2].Name != data.Topics[k].Name) && !(data.Topics[k].Err == ErrNoError || data.Topics[k].Err == ErrLeaderNotAvailable) ==> !haskey(client.metadata, data.Topics[k].Name) && !haskey(client.cachedPartitionsResults, data.Topics[k].Name)
+//@   loop 1: invariant[stored_topics_present +cur_topic +keyed] forall k :: 0 <= k && k < $i0 && (forall j2 :: k < j2 && j2 < $i0 + 1 ==> data.Topics[j2].Name != data.Topics[k].Name) && (data.Topics[k].Err == ErrNoError || data.Topics[k].Err == ErrLeaderNotAvailable) ==> haskey(client.metadata, data.Topics[k].Name) && haskey(client.cachedPartitionsResults, data.Topics[k].Name)
+//@   loop 1: invariant[stored_partitions_listed +cur_topic +keyed] forall k, j :: 0 <= k && k < $i0 && (forall j2 :: k < j2 && j2 < $i0 + 1 ==> data.Topics[j2].Name != data.Topics[k].Name) && (data.Topics[k].Err == ErrNoError || data.Topics[k].Err == ErrLeaderNotAvailable) && 0 <= j && j < len(data.Topics[k].Partitions) ==> haskey(client.metadata[data.Topics[k].Name], data.Topics[k].Partitions[j].ID)
+//@   loop 1: invariant[stored_partitions_only +cur_topic +keyed] forall k int, p int32 :: 0 <= k && k < $i0 && (forall j2 :: k < j2 && j2 < $i0 + 1 ==> data.Topics[j2].Name != data.Topics[k].Name) && (data.Topics[k].Err == ErrNoError || data.Topics[k].Err == ErrLeaderNotAvailable) && haskey(client.metadata[data.Topics[k].Name], p) ==> exists j :: 0 <= j && j < len(data.Topics[k].Partitions) && data.Topics[k].Partitions[j].ID == p && client.metadata[data.Topics[k].Name][p] == data.Topics[k].Partitions[j]
+//@   loop 1: invariant[full_refresh_forgets_unlisted +cur_topic +keyed] allKnownMetaData ==> forall t string :: haskey(client.metadata, t) ==> exists k :: 0 <= k && k < $i0 + 1 && data.Topics[k].Name == t
+//@   loop 1: invariant[partial_refresh_keeps_unlisted +cur_topic +keyed] !allKnownMetaData ==> forall t string :: (forall k :: 0 <= k && k < $i0 + 1 ==> data.Topics[k].Name != t) ==> haskey(client.metadata, t) == acq(haskey(client.metadata, t)) && client.metadata[t] == acq(client.metadata[t]) && haskey(client.cachedPartitionsResults, t) == acq(haskey(client.cachedPartitionsResults, t))
+//@   loop 1: invariant[err_is_a_topic_error +cur_topic +keyed] err != nil ==> exists k :: 0 <= k && k < $i0 && !(data.Topics[k].Err == ErrNoError || data.Topics[k].Err == ErrLeaderNotAvailable) && err == data.Topics[k].Err
+//@   loop 1: invariant[err_nil_means_no_topic_error +cur_topic +keyed] err == nil ==> forall k :: 0 <= k && k < $i0 ==> (data.Topics[k].Err == ErrNoError || data.Topics[k].Err == ErrLeaderNotAvailable)
+//@   loop 1: invariant[retry_on_topic_class +cur_topic +keyed] forall k :: 0 <= k && k < $i0 && (data.Topics[k].Err == ErrUnknownTopicOrPartition || data.Topics[k].Err == ErrLeaderNotAvailable) ==> retry
+//@   loop 1: invariant[retry_on_leaderless_partition +cur_topic +keyed] forall k, j :: 0 <= k && k < $i0 && data.Topics[k].Err == ErrNoError && 0 <= j && j < len(data.Topics[k].Partitions) && data.Topics[k].Partitions[j].Err == ErrLeaderNotAvailable ==> retry
+//@   loop 1: invariant lockinv(client.lock, cached_has_metadata)
+//@   loop 1: invariant lockinv(client.lock, all_sorted)
+//@   loop 1: invariant lockinv(client.lock, all_only_known)
+//@   loop 1: invariant lockinv(client.lock, all_complete)
+//@   loop 1: invariant lockinv(client.lock, writable_sorted)
+//@   loop 1: invariant lockinv(client.lock, writable_only_available)
+//@   loop 1: invariant lockinv(client.lock, writable_complete)
+// END generated: client.updateMetadata
